@@ -5,7 +5,9 @@
 (* result (the way every wallet action uses the two functions), plus the    *)
 (* chain views the fake Bitcoin chain of the harness must present.  Written *)
 (* in one batch; the generation model has a single state.                   *)
-EXTENDS MC_MainUtxo, TLC, Json, SequencesExt
+EXTENDS MC_MainUtxo, TLC, Json, SequencesExt, Randomization
+
+CONSTANT SampleSize   \* 0: all scenarios; n: all shorter scenarios plus n random ones of full length (TLC -seed)
 
 Case(s, reg, f) ==
     LET m == DetermineResult(s, reg, f)
@@ -17,7 +19,12 @@ Case(s, reg, f) ==
          confirmedUtxos |-> ConfirmedUtxos(s),
          mempoolUtxos |-> MempoolUtxos(s) ]
 
-Cases == UNION { { Case(s, reg, f) : reg \in Registrations(s), f \in Faults } : s \in Scenarios(MaxTxs) }
+Picked ==
+    LET all == Scenarios(MaxTxs) IN
+    IF SampleSize = 0 THEN all
+    ELSE { s \in all : Len(s) < MaxTxs } \cup RandomSubset(SampleSize, { s \in all : Len(s) = MaxTxs })
+
+Cases == UNION { { Case(s, reg, f) : reg \in Registrations(s), f \in Faults } : s \in Picked }
 
 GInit == /\ txs = <<>> /\ registered = [kind |-> "none", t |-> 0, o |-> 0] /\ fault = "none"
          /\ pc = "done" /\ main = MainErr("pending") /\ sync = "-"
